@@ -517,7 +517,39 @@ def check_c11(an):
                     hand != sorted(bd['deal'][pl.seat]):
                 an.add('C11', 'deal-replica', f'{who} board {b}: client understood board {num} '
                                               f'dealer {dealer} vul {vul} hand {hand}')
+    check_c11_replica_lag(an)
     check_c11_observers(an)
+
+
+def check_c11_replica_lag(an):
+    """A client that has been HANDED a card message (its receive_message returned the line) but
+    whose replica did not advance has ignored an action the table manager accepted -- it then sits
+    one card behind and waits for ever, so no later decision point exposes it.  Judged when the run
+    has come to rest (finished, or deadlocked with every thread blocked at a yield point)."""
+    run = an.run
+    if run.outcome not in ('finished', 'deadlock'):
+        return
+    handed = {}
+    for cid, side, msg, exc in parserec.RECV_LOG:
+        if side == 'client' and msg is not None and proto.tokenize(msg)[0] == 'CARD':
+            handed[cid] = handed.get(cid, 0) + 1
+    for pl in run.players:
+        if pl.kind != 'bundled' or pl.obs.exception is not None:
+            continue
+        v = an.seated.get(pl.seat)
+        if v is None or getattr(pl, 'verdict', 'seated') != 'seated':
+            continue
+        try:
+            applied = sum(len(env.used_cards) for env in pl.obs.play_envs)
+        except Exception:
+            continue
+        own = sum(1 for _, _, tok in v.c2s if tok[0] == 'CARD')
+        got = handed.get(v.cid, 0)
+        if applied < own + got:
+            an.add('C11', 'replica-lag',
+                   f'{pl.name}: was handed {got} card message(s) and played {own} itself, but its '
+                   f'play replicas hold only {applied} card(s): a card the table manager accepted '
+                   f'and relayed was ignored (run ended {run.outcome})', key='replica-lag')
 
 
 def check_c11_observers(an):
